@@ -22,3 +22,6 @@ git -C /repo apply $W/OUT/patch.diff || { echo "patch does not apply to /repo"; 
 for id in "$@"; do ./check $id quick 2>&1 | tail -3; done
 git -C /repo checkout -- .
 git -C /repo status --short | head -3
+# the runs above rewrote evidence/<id>.json from a tree with the seeded change: the committed evidence comes from the
+# unchanged tree only
+git -C /verif checkout -- evidence
